@@ -10,6 +10,7 @@ import hashlib
 import re
 import io
 import json
+import logging
 import os
 import shutil
 import sys
@@ -72,6 +73,9 @@ class CtlSim:
 
     def __init__(self, run, props=None):
         silence_library_logging()
+        if (run.get("config") or {}).get("loglevel") in ("DEBUG", "INFO"):
+            # configuration knob: the application enabled the library's logger (records go to a null handler)
+            logging.getLogger("asyncio_taskpool").setLevel(getattr(logging, run["config"]["loglevel"]))
         self.run = run
         self.cfg = cfg = run["config"]
         self.props = props
@@ -617,6 +621,9 @@ class CtlSim:
             sys.stdout, sys.stderr = cap_out, cap_err
             with running(self.loop), warnings.catch_warnings():
                 warnings.simplefilter("ignore")
+                if self.cfg.get("wfilter") == "error":
+                    # configuration knob: the process treats warnings as errors (-W error); applied to the library's own
+                    warnings.filterwarnings("error", module=r"asyncio_taskpool")
                 self.pool = self.make_pool()
                 if source is None:
                     for st in run["steps"]:
@@ -758,10 +765,17 @@ class CtlSim:
                     self.violate("C18", "too_many_replies", f"client {c.label}: {len(replies)} replies, {at_stop} lines before the stop")
                 lines = lines[:max(at_stop, min(len(replies), at_stop + 1))]
                 n_lines = len(lines)
-            if c.gone:
+            if c.gone and c.gone != "eof":
                 if len(replies) > n_lines:
                     self.violate("C18", "too_many_replies", f"client {c.label}: {len(replies)} replies for {n_lines} lines")
                 continue
+            if c.gone == "eof":
+                # the client only closed its sending side and keeps reading: every line it sent before still gets its reply,
+                # and the reply must reach it (the connection is closed in an orderly way afterwards, not reset)
+                self.stats["probe:client_half_closed_and_kept_reading"] += 1
+                if not c.ct._stalled and bytes(c.recv) != b"".join(writes) and len(replies) >= n_lines:
+                    self.violate("C18", "replies_lost_after_eof", f"client {c.label} half-closed after {n_lines} lines: the server wrote {len(replies)} replies "
+                                 f"({sum(map(len, writes))} bytes) but only {len(c.recv)} bytes arrived (connection lost: {c.lost_exc!r})")
             if len(replies) > n_lines:
                 self.violate("C18", "too_many_replies", f"client {c.label}: {len(replies)} replies for {n_lines} lines")
             elif len(replies) < n_lines:
